@@ -448,6 +448,7 @@ def run(sc: dict) -> RunResult:
             except ScenarioInvalid:
                 raise
             except StepBudgetExceeded:
+                StepClock.acknowledge()
                 res.add(PROP, "no_result", "step budget exceeded while setting up clients")
                 return res
             except Exception as e:      # noqa: BLE001
@@ -500,6 +501,7 @@ def run(sc: dict) -> RunResult:
                 try:
                     err = c.step(env)
                 except StepBudgetExceeded:
+                    StepClock.acknowledge()
                     res.add(PROP, "no_result", "step budget exceeded in client %d (%s)" % (c.cid, c.spec["k"]))
                     break
                 except Exception as e:      # noqa: BLE001
